@@ -163,6 +163,18 @@ func runScramSequenceWith(c *Ctx, mech string, seq []string, custom bool) {
 			h := hashFor(mech)
 			sig := refHMAC(h, refHMAC(h, nil, []byte("Server Key")), nil)
 			return ch("v=" + base64.StdEncoding.EncodeToString(sig))
+		case "final-blank":
+			// a server-final with an empty verifier
+			sentFinal, lastFinalValid = true, false
+			invalidFinals++
+			return ch("v=")
+		case "final-trunc":
+			// the valid ServerSignature of this exchange cut to its first three bytes
+			sentFinal, lastFinalValid = true, false
+			invalidFinals++
+			_, sig := refScram(mech, normPass, salt, curIter, []byte(authMsg))
+			raw, _ := base64.StdEncoding.DecodeString(sig)
+			return ch("v=" + base64.StdEncoding.EncodeToString(raw[:3]))
 		case "junk":
 			return ch("x=this-is-junk")
 		case "235":
